@@ -1640,13 +1640,12 @@ impl<'a> Visitor<'a, '_, Error> for JSONValidator<'a> {
         }
       },
       ControlOperator::AND => {
-        self.state.ctrl = Some(ctrl);
+        // both operands are ordinary types the value has to match; no
+        // operator is in effect while they are visited
         self.visit_type2(target)?;
         self.visit_type2(controller)?;
-        self.state.ctrl = None;
       }
       ControlOperator::WITHIN => {
-        self.state.ctrl = Some(ctrl);
         let error_count = self.errors.len();
         self.visit_type2(target)?;
         let no_errors = self.errors.len() == error_count;
@@ -1661,8 +1660,6 @@ impl<'a> Visitor<'a, '_, Error> for JSONValidator<'a> {
             target, controller, self.json,
           ));
         }
-
-        self.state.ctrl = None;
       }
       ControlOperator::DEFAULT => {
         self.state.ctrl = Some(ctrl);
